@@ -103,16 +103,28 @@ func (e *Eng) prescan() {
 	}
 	sort.Strings(names)
 	e.reg.addComp("W", "Int", false)
-	// package-level variables
+	// only what the functions under contract and the contract text mention becomes part of the
+	// modelled heap (keeps the Heap datatype, and every query, small)
+	text := e.cs.allText()
 	for _, m := range e.pkg.Members {
-		if g, ok := m.(*ssa.Global); ok {
-			t := g.Type().(*types.Pointer).Elem()
-			e.reg.noteType(t)
-			e.reg.addComp("G."+g.Name(), e.reg.sortOf(t), false)
+		switch x := m.(type) {
+		case *ssa.Global:
+			if strings.Contains(text, "G."+x.Name()) {
+				t := x.Type().(*types.Pointer).Elem()
+				e.reg.noteType(t)
+				e.reg.addComp("G."+x.Name(), e.reg.sortOf(t), false)
+			}
+		case *ssa.Type:
+			if _, isS := x.Type().Underlying().(*types.Struct); isS && strings.Contains(text, x.Name()+".") {
+				e.reg.registerHeapStruct(x.Type())
+			}
 		}
 	}
 	for _, n := range names {
 		fn := e.funcs[n]
+		if c := e.cs.ByName[n]; c == nil || c.Abstract {
+			continue
+		}
 		for _, p := range fn.Params {
 			e.noteT(p.Type())
 		}
@@ -136,9 +148,14 @@ func (e *Eng) prescan() {
 							e.strLit(constString(c))
 						}
 					}
-					if g, ok := (*op).(*ssa.Global); ok && g.Pkg != e.pkg {
+					if g, ok := (*op).(*ssa.Global); ok {
 						t := g.Type().(*types.Pointer).Elem()
-						e.reg.addComp("G."+g.Pkg.Pkg.Name()+"."+g.Name(), e.reg.sortOf(t), false)
+						if g.Pkg != e.pkg {
+							e.reg.addComp("G."+g.Pkg.Pkg.Name()+"."+g.Name(), e.reg.sortOf(t), false)
+						} else {
+							e.reg.noteType(t)
+							e.reg.addComp("G."+g.Name(), e.reg.sortOf(t), false)
+						}
 					}
 				}
 				switch x := in.(type) {
